@@ -28,7 +28,7 @@ ASSUMPTIONS = ['sharing of sub-objects between registered copies is not alterati
 LEVEL_TEXT = ('All interleavings up to length 3 (thorough: 4) for two enforcers plus seeded random longer ones over up to '
               'three; comparisons after every step. Interleavings are unbounded, so bounded-exhaustive plus sampling is the level.')
 LEVEL_NOTE = 'trusted: a fresh Enforcer with re-constructed defaults as the oracle of "loaded once"; the attribute snapshot function'
-PLAN = {'quick': dict(shards=8, wall=70), 'thorough': dict(shards=16, wall=500)}
+PLAN = {'quick': dict(shards=8, wall=150), 'thorough': dict(shards=16, wall=500)}
 MIN = {'overlapping_evaluations': 200, 'evaluations': 300, 'steps_compared': 1500, 'snapshots_compared': 1500, 'forced_reloads': 200, 'merged_or_checks_seen': 100}
 ANCHORS = ['oslo_policy.policy:Enforcer.register_default', 'oslo_policy.policy:Enforcer._handle_deprecated_rule',
            'oslo_policy.policy:Enforcer.load_rules', 'oslo_policy.policy:Enforcer.enforce']
